@@ -80,6 +80,12 @@ type StreamFeature struct {
 	Negotiate func(ctx context.Context, session *Session, data interface{}) (mask SessionState, rw io.ReadWriter, err error)
 }
 
+// allowed reports whether all the necessary bits and none of the prohibited bits
+// of the feature are set in state.
+func (f StreamFeature) allowed(state SessionState) bool {
+	return state&f.Necessary == f.Necessary && state&f.Prohibited == 0
+}
+
 func containsStartTLS(features []StreamFeature) (startTLS StreamFeature, ok bool) {
 	for _, feature := range features {
 		if feature.Name.Space == ns.StartTLS {
@@ -205,9 +211,11 @@ func negotiateFeatures(ctx context.Context, s *Session, first, ws bool, features
 
 			// If the feature was not sent, was already negotiated, or is
 			// informational only and not meant to be negotiated: error.
+			// Features negotiated earlier from the same list may have changed the
+			// session state, so the feature's masks are checked again.
 			_, negotiated := s.negotiated[start.Name.Space]
 			data, sent = list.cache[start.Name.Space]
-			if !sent || negotiated || data.feature.Negotiate == nil {
+			if !sent || negotiated || data.feature.Negotiate == nil || !data.feature.allowed(s.state) {
 				// TODO: What should we return here?
 				return mask, rw, stream.PolicyViolation
 			}
@@ -242,6 +250,11 @@ func negotiateFeatures(ctx context.Context, s *Session, first, ws bool, features
 					if _, ok := s.negotiated[v.feature.Name.Space]; ok || v.feature.Negotiate == nil {
 						// If this feature has already been negotiated, or is informational
 						// only with no negotiation, skip it.
+						continue
+					}
+					if !v.feature.allowed(s.state) {
+						// Features negotiated earlier from the same list may have changed
+						// the session state so that the masks of this one no longer match.
 						continue
 					}
 
@@ -335,8 +348,7 @@ func writeStreamFeatures(ctx context.Context, s *Session, ws bool, features []St
 	for _, feature := range features {
 		// Check if all the necessary bits are set and none of the prohibited bits
 		// are set.
-		if (s.state&feature.Necessary) == feature.Necessary &&
-			(s.state&feature.Prohibited) == 0 {
+		if feature.allowed(s.state) {
 			var r bool
 			r, err = feature.List(ctx, s.out.e, xml.StartElement{
 				Name: feature.Name,
@@ -417,9 +429,7 @@ parsefeatures:
 				}
 				sf.req = sf.req || req
 
-				if s.state&feature.Necessary == feature.Necessary &&
-					s.state&feature.Prohibited == 0 {
-
+				if feature.allowed(s.state) {
 					sf.cache[tok.Name.Space] = sfData{
 						req:     req,
 						feature: feature,
